@@ -69,7 +69,7 @@ Proof.
   rewrite andb_false_r. reflexivity.
 Qed.
 
-(* the pre-repair accounting admits a reply against a load that omits the request *)
+(* the pre-repair accounting lets a reply through against a load that omits the request *)
 Example post_accounting_refuted : exists bw t, wf t /\ snd (run_post bw t (0, 0)) > bw.
 Proof.
   exists 8, (Tx 5 5 true true [Tx 5 5 true true []]). split.
